@@ -407,6 +407,9 @@ def _is_normalized_properly(
             vec = orb[:, iorb].copy()
             norm = np.dot(vec, np.dot(olp, vec))
             # print(iorb, norm)
+            if not np.isfinite(norm):
+                # max() below would silently drop a NaN
+                return False
             error_max = max(error_max, abs(norm - 1))
 
     # final judgement
